@@ -213,7 +213,11 @@ func cmdCacheRT(args []tok) string {
 		}
 		var c flowCache
 		c.load(proto, path)
-		return "T:" + cacheDigest(proto, c.dump) + " | " + c.history(h2)
+		// REF: the same collector without any restart: only the second cache ever existed
+		var ref flowCache
+		ref.load(proto, filepath.Join(dir, "absent"))
+		ref.history(small)
+		return "T:" + cacheDigest(proto, c.dump) + " | " + c.history(h2) + " || REF T:" + cacheDigest(proto, ref.dump) + " | " + ref.history(h2)
 	}
 	if mode == "GEN2" {
 		// a second generation: restart on the saved file, re-announcements, save again over the same file, restart again
@@ -226,12 +230,18 @@ func cmdCacheRT(args []tok) string {
 		}
 		var c flowCache
 		c.load(proto, path)
-		return "T:" + cacheDigest(proto, c.dump) + " | " + c.history(h2)
+		// REF: the same histories on one collector that never restarted
+		var ref flowCache
+		ref.load(proto, filepath.Join(dir, "absent"))
+		ref.history(setup)
+		ref.history(mods)
+		return "T:" + cacheDigest(proto, c.dump) + " | " + c.history(h2) + " || REF T:" + cacheDigest(proto, ref.dump) + " | " + ref.history(h2)
 	}
 	if mode == "FULL" {
 		var c flowCache
 		c.load(proto, path)
-		return "T:" + cacheDigest(proto, c.dump) + " | " + c.history(hist)
+		// REF: the collector that never restarted (c0 is still that collector)
+		return "T:" + cacheDigest(proto, c.dump) + " | " + c.history(hist) + " || REF T:" + cacheDigest(proto, c0.dump) + " | " + c0.history(hist)
 	}
 	file, _ := ioutil.ReadFile(path)
 	var fresh flowCache
